@@ -44,7 +44,7 @@ theorem loop_eq (e : Nat → Bool × Unit × Option String) :
         | false =>
           have := ih lo ((hi + lo) / 2) (by omega) hlo (by omega)
           simpa [execOf, hx] using this
-    · simp [hc]
+    · simp [hc, types_BinSearch.k2]
 
 /-- `BinSearch` returns the model's answer (and `(0, err)` exactly when the model gives up on a consensus error) -/
 theorem tie_bin_search (e : Nat → Bool × Unit × Option String) (lo hi : Nat) (hlo : lo < 2^63) (hhi : hi < 2^63) :
